@@ -36,4 +36,13 @@ upstream factors `gm`, `gv`: `expec_vec_grad = −2 gv (kᵀm) k + gm k`, `expec
 def ngdExpecGrads [Ring α] (k m : DMat n 1 α) (gm gv : α) : DMat n 1 α × DMat n n α :=
   ((k.smul (-2 * gv * interpMean k m)).add (k.smul gm), (k.mul k.transpose).smul gv)
 
+/-- `_NgdInterpTerms.backward`: `interp_term_grad = 2 gv (S k) + gm m` for one data point, where `S k` is the
+CG solve `s_times_interp_term` and `m = expec_vec` (both delivered by `linear_cg`; their contract `S·prec = 1`
+is linear_operator's). -/
+def ngdInterpTermGrad [Ring α] (S : DMat n n α) (k m : DMat n 1 α) (gm gv : α) : DMat n 1 α :=
+  ((S.mul k).smul (2 * gv)).add (m.smul gm)
+
+/-- the data terms as functions of `interp_term = k` for fixed variational covariance `S` and mean `m` -/
+def interpVarS [Ring α] (S : DMat n n α) (k : DMat n 1 α) : α := (k.transpose.mul (S.mul k)).trace
+
 end NaturalGrad
